@@ -32,7 +32,7 @@ ASSUMPTIONS = ['truth comes from aegmon/refs/render.py + wcs_zenithal.py (cross-
                'pull scale 1.4826*MAD exceeds 2.2; SNR 40-300 only; noise matched to the mode']
 MIN_REACH = {'source_finder:SourceFinder.find_sources_in_image': 1, 'source_finder:SourceFinder._fit_island': 1,
              'fitting:do_lmfit': 1}
-MIN_COUNTERS = {'nf_judged': 20, 'noisy_trials': 100, 'nf_cube_cases_plane_above_0': 4, 'nf_psfmap_judged': 6, 'nf_user_beam_cases': 5, 'nf_mas_pixel_cases': 5}
+MIN_COUNTERS = {'nf_judged': 20, 'noisy_trials': 100, 'nf_cube_cases_plane_above_0': 4, 'nf_psfmap_judged': 6, 'nf_user_beam_cases': 5, 'nf_mas_pixel_cases': 5, 'nf_maps_saved_by_the_same_finder_first': 5}
 BATCHES_PER_JOB = 6
 KEY_D25 = 'amplitude-bound-excludes-truth'
 KEY_SPLIT = 'pixel-noise-local-maxima-split-source'
@@ -149,6 +149,8 @@ def cases(seed, tier):
     for i in range(n_nf):
         c = gen_source_case(rng)
         c.update(kind='nf', via='cli' if i % 8 == 7 else 'api')
+        if i % 8 == 3:
+            c['save_first'] = True
         out.append(c)
     n_al = 32 if tier == 'quick' else 400
     for i in range(n_al):
@@ -367,6 +369,10 @@ def run_finder(case, img, h, rms, sc, bane=False, cores=1, bkg_internal=False):
         kw.update(beam=Beam(*[float(v) for v in case['beam']]))
     if psf_fn:
         kw.update(imgpsf=psf_fn)
+    if case.get('save_first'):
+        # a script that first saves the background/noise/snr maps and then searches, with one and the same finder object
+        sf.save_background_files(fn, rms=kw.get('rms'), bkg=kw.get('bkg'), cores=1, outbase=os.path.join(sc, 'saved'),
+                                 beam=kw.get('beam'), cube_index=kw.get('cube_index'))
     srcs = sf.find_sources_in_image(fn, **kw)
     names = ['island', 'source', 'ra', 'dec', 'peak_flux', 'a', 'b', 'pa', 'int_flux', 'flags', 'err_ra', 'err_dec',
              'err_peak_flux', 'err_a', 'err_b', 'err_pa', 'err_int_flux', 'local_rms', 'ra_str', 'dec_str', 'psf_a', 'psf_b',
@@ -514,6 +520,8 @@ def _run_nf(o, case, sc):
     wit = {'case': {k: case[k] for k in ('proj', 'crval', 'crpix', 'scale', 'shape', 'beam', 'index', 'docov', 'via', 'flip_dec', 'use_cd') if k in case},
            'truth': truth, 'forced_rms': rms, 'peak_pixel': peakpix, 'amp_bound_excludes_truth': bool(excluded)}
     armed = case.get('via') != 'cli'
+    if case.get('save_first') and case.get('via') != 'cli':
+        o.count('nf_maps_saved_by_the_same_finder_first')
     if case.get('user_beam'):
         wit['header_beam'] = case['header_beam']
         o.count('nf_user_beam_cases')
